@@ -180,6 +180,35 @@ fn respell_kind(json: &str, k: u32) -> Result<String, String> {
     Ok(json.replacen(&from, &to, 1))
 }
 
+/// prefix of a set-up error that only says the wall clock left the session's own acceptance window during the set-up
+const CLOCK_TICK: &str = "clock-moved-during-setup";
+
+fn now_secs() -> u64 {
+    nostr::Timestamp::now().as_secs()
+}
+
+/// wait until the wall clock is in the first half of a second, so that no tick falls into the next few milliseconds
+fn settle() {
+    loop {
+        let d = std::time::SystemTime::now().duration_since(std::time::UNIX_EPOCH).unwrap();
+        if d.subsec_millis() < 500 {
+            return;
+        }
+        std::thread::sleep(std::time::Duration::from_millis(1000 - d.subsec_millis() as u64 + 2));
+    }
+}
+
+/// test aid for the path above: `VH_FFI_STALL=<ms>,<n>` holds the first n set-ups between creating and delivering the first message
+fn stall_for_test() {
+    static DONE: std::sync::atomic::AtomicU32 = std::sync::atomic::AtomicU32::new(0);
+    let Ok(v) = std::env::var("VH_FFI_STALL") else { return };
+    let Some((ms, n)) = v.split_once(',') else { return };
+    let (Ok(ms), Ok(n)) = (ms.parse::<u64>(), n.parse::<u32>()) else { return };
+    if DONE.fetch_add(1, std::sync::atomic::Ordering::SeqCst) < n {
+        std::thread::sleep(std::time::Duration::from_millis(ms));
+    }
+}
+
 fn e2s(e: MdkUniffiError) -> String {
     format!("{e}")
 }
@@ -247,8 +276,21 @@ impl Sess {
             toks.insert(format!("WJ{g}"), welcome_json(&w).ok_or("welcome json")?);
             if g == 0 {
                 b.accept_welcome(clone_welcome(&w)).map_err(e2s)?;
+                // with a window of a second or less (`zeros`, `mixed`) a tick of the wall clock between the two calls makes the
+                // message older than max_event_age_secs, and validate_created_at refusing it is what that configuration asks for,
+                // not a failed set-up: start in the first half of a second, and when the clock is SEEN to have moved by more than
+                // the window, have `main` build the session again (any other refusal stays a setup-failed)
+                let max_age = Self::cfg(cfg).flatten().and_then(|c| c.max_event_age_secs).unwrap_or(3_888_000);
+                if max_age <= 1 {
+                    settle();
+                }
+                let t0 = now_secs();
                 let m0 = a.create_message(gid.clone(), alice.public_key().to_hex(), "first".into(), 9, None).map_err(e2s)?;
-                b.process_message(m0).map_err(e2s)?;
+                stall_for_test();
+                if let Err(e) = b.process_message(m0) {
+                    let moved = now_secs().saturating_sub(t0);
+                    return Err(if moved > max_age { format!("{CLOCK_TICK} {moved}s > {max_age}s: {}", e2s(e)) } else { e2s(e) });
+                }
                 let msgs = b.get_messages(gid.clone(), None, None, None).map_err(e2s)?;
                 toks.insert("EMSG0".into(), msgs.first().ok_or("no message")?.id.clone());
                 toks.insert("EWRAPMSG0".into(), msgs.first().ok_or("no message")?.event_id.clone());
@@ -663,11 +705,22 @@ pub fn main(_args: &[String]) -> i32 {
         if t[0] == "reset" || sess.is_none() {
             sess = None; // drop the old databases first
             let cfg = if t[0] == "reset" { field(&t, "cfg").unwrap_or("-").to_string() } else { "-".to_string() };
-            match catch_unwind(|| Sess::new(&cfg)) {
+            // a session whose own window the clock left during the set-up is built again (a few times: a persistent
+            // refusal is reported with its message like any other)
+            let mut built = catch_unwind(|| Sess::new(&cfg));
+            let mut rebuilt = 0;
+            for _ in 0..8 {
+                if !matches!(&built, Ok(Err(e)) if e.starts_with(CLOCK_TICK)) {
+                    break;
+                }
+                rebuilt += 1;
+                built = catch_unwind(|| Sess::new(&cfg));
+            }
+            match built {
                 Ok(Ok(s)) => {
                     if t[0] == "reset" {
                         let lens: Vec<String> = ["G0", "EMSG0", "PKA", "NG0", "EW1", "EWRAP1"].iter().map(|k| format!("{k}={}", s.toks[*k].len())).collect();
-                        writeln!(out, "ok:reset | msg= {}", lens.join(" ")).unwrap();
+                        writeln!(out, "ok:reset | msg= {} rebuilt={rebuilt}", lens.join(" ")).unwrap();
                     }
                     sess = Some(s);
                 }
